@@ -56,6 +56,14 @@ func minDist(p geom.Point, r *geom.Bounds) float64 {
 	return sum
 }
 
+// boxDist is the distance from p to r (zero if p lies in r). Unlike the square
+// root of minDist it does not overflow for points more than 1e154 away.
+func boxDist(p geom.Point, r *geom.Bounds) float64 {
+	dx := math.Max(0, math.Max(r.Min.X-p.X, p.X-r.Max.X))
+	dy := math.Max(0, math.Max(r.Min.Y-p.Y, p.Y-r.Max.Y))
+	return math.Hypot(dx, dy)
+}
+
 // minMaxDist computes the minimum of the maximum distances from p to points
 // on r.  If r is the bounding box of some geometric objects, then there is
 // at least one object contained in r within minMaxDist(p, r) of p.
